@@ -508,8 +508,9 @@ impl ConfigActor {
         //self.config_db.del_config(&key).ok();
         self.tenant_index.remove_config(&key);
         self.listener.notify(key.clone());
-        self.subscriber.notify(key.clone());
-        self.subscriber.remove_config_key(key);
+        // keep the gRPC subscriptions of the removed key (as for a key that was never published),
+        // otherwise a later publish of it would not be notified
+        self.subscriber.notify(key);
         Ok(())
     }
 
